@@ -46,4 +46,20 @@ def kvB (k : String) (b : Bool) : String := k ++ "=" ++ (if b then "1" else "0")
 def kvN (k : String) (n : Nat) : String := k ++ "=" ++ toString n
 def reply (fs : List String) : String := " ".intercalate fs
 
+/-- generic driver loop: one request per line, one reply per line -/
+partial def runLoopAux {σ : Type} (h : IO.FS.Stream) (out : IO.FS.Stream) (st : σ)
+    (step : σ → String → σ × String) : IO Unit := do
+  let line ← h.getLine
+  if line.isEmpty then return ()
+  let (st', r) := step st line
+  out.putStrLn r
+  runLoopAux h out st' step
+
+def runLoop {σ : Type} (init : σ) (step : σ → String → σ × String) : IO UInt32 := do
+  let i ← IO.getStdin
+  let o ← IO.getStdout
+  runLoopAux i o init step
+  o.flush
+  return 0
+
 end SophiaModel.Proto
